@@ -7,6 +7,7 @@ CONSTANTS
   MaxOut = 0
   GenRot = TRUE
   GenBack = "all"
+  GenSorted = FALSE
   MaxCtr = 1
   LoadCap = 1
   MaxReq = 0
